@@ -18,11 +18,13 @@ for d in dirs:
     rows.append(f"| {d.name} | {esc(m.get('summary', ''))[:260]} | {esc(m.get('needs', ''))[:200]} | {esc(det)[:420]} |")
 head = f"""## 13. Seeded changes (`/verif/seeded/`) and which check catches them
 
-Produced by fresh sub-agents that saw only the property text and a scratch worktree (four rounds: ids `Cxx_n` = round 1, `r2_Cxx_n` =
+Produced by fresh sub-agents that saw only the property text and a scratch worktree (five rounds: ids `Cxx_n` = round 1, `r2_Cxx_n` =
 round 2 with the instruction to prefer less travelled paths, `r3_Cxx_n` = round 3 with the additional demand that the two changes per
 property sit in different functions and at least one outside the property's central routine - helpers, constructors, option branches,
 clean-up paths, feature interactions, omissions; `r4_Cxx_1` = round 4, one change per property that needs something specific to
-manifest: an interleaving, a fault at a particular point, a multi-step history, an unusual input, or two cooperating sites). Each kept change compiles, passes the repository tests the agent ran, and has a
+manifest: an interleaving, a fault at a particular point, a multi-step history, an unusual input, or two cooperating sites;
+`r5_Cxx_1` = round 5, eight properties, changes at the places where the calling threads and the backend synchronise - flags, counters,
+hand-shakes, memory orders, the order of two steps, re-checks). Each kept change compiles, passes the repository tests the agent ran, and has a
 demonstration that fails with it and passes without it (re-run by me in the scratch worktree). {len(rows)} changes in total; {missed} were
 missed (or only noticed as model/code drift) by the check as it stood when the change arrived - every miss was traced to an input class, a
 yield point or a contract clause that the check lacked, the check was extended (never loosened), and all {len(rows)} are reported now
